@@ -41,6 +41,26 @@ def chunk_tracks(tb, lo, hi):
     return out
 
 
+def stalled_chunk(tracks, cuts):
+    """D19: a call other than the last ends with a bar in which no track moves the clock off the bar line"""
+    try:
+        tb = bars_of(tracks)
+    except Exception:
+        return False
+    nb = len(tb[0])
+    for c in sorted({c for c in cuts if 0 < c < nb}):
+        last = 0
+        for bars in tb:
+            rel = [from_real(m) for m in bars[c - 1].sequence.rel._messages]
+            timed, dur = rel_timed(rel)
+            onsets = [t for t, m in timed if m[TY] in (ON, TIMESIG)]
+            cap = dur if (rel and rel[-1][TY] == WAIT) else 0
+            last = max([last, cap] + onsets)
+        if last == 0:
+            return True
+    return False
+
+
 def o_chunked(inp):
     cfg = P.TkCfg(**inp["cfg"])
     tracks = [[tuple(m) for m in t] for t in inp["tracks"]]
@@ -83,9 +103,19 @@ def o_chunked(inp):
 def setup(ctx):
     ctx.oracle("chunked", o_chunked)
 
+    def kf_d19(f):
+        return f["clause"] in ("notes", "bar-grid") and stalled_chunk([[tuple(m) for m in t] for t in f["input"]["tracks"]], f["input"]["cuts"])
+    ctx.kf_predicates["D19"] = kf_d19
+
+
+D19_EXAMPLE = {"cfg": dict(num_tracks=1), "cuts": [1], "tracks": [[
+    G.pm(TIMESIG, 0, None, num=3, den=8), G.pm(ON, 0, None, note=60, vel=64), G.pm(WAIT, 0, 36), G.pm(OFF, 0, None, note=60),
+    G.pm(ON, 0, None, note=62, vel=64), G.pm(WAIT, 0, 36), G.pm(OFF, 0, None, note=62)]]}
+
 
 def generate(ctx):
     rng = ctx.rng
+    ctx.check("chunked", D19_EXAMPLE)
     for i in range(ctx.n(60, 1200)):
         piece = G.gen_piece(rng, n_bars=rng.randint(2, 6), tail_ok=False, pitch_range=(55, 70), within_bar=rng.random() < 0.9,
                              max_notes_per_bar=4)
